@@ -185,3 +185,11 @@ def short(x, n=200):
     except Exception as e:
         r = f"<repr failed: {type(e).__name__}>"
     return r if len(r) <= n else r[:n] + "..."
+
+
+def reject_raw(o):
+    """utype.type_transform on a bare builtin raises the converter's own TypeError/ValueError (documented):
+    for standalone verdicts of an argument/element type that is a rejection like a ParseError"""
+    if o[0] == "other" and isinstance(o[1], (TypeError, ValueError, ArithmeticError)) and not isinstance(o[1], RecursionError):
+        return ("perr", o[1])
+    return o
